@@ -27,7 +27,7 @@ JudgeHR(rec) ==
     IN Checks(IF Len(algs) = 1 THEN "one-hasher" ELSE "many-hashers",
        << <<rec.new_ok, "constructor failed for a known algorithm">>,
           <<Len(rec.steps) = Len(bufs), "missing steps">>,
-          <<\A k \in 1..Len(bufs) : ~rec.steps[k].err /\ rec.steps[k].n <= bufs[k] /\ rec.steps[k].n >= 0, "Read failed or overran its buffer">>,
+          <<\A k \in 1..Len(bufs) : (("src" \in DOMAIN rec.in /\ rec.in.src = "transient") \/ ~rec.steps[k].err) /\ rec.steps[k].n <= bufs[k] /\ rec.steps[k].n >= 0, "Read failed or overran its buffer">>,
           <<\A k \in 1..Len(bufs) : rec.steps[k].passed_len = got[k] /\ got[k] <= total /\ rec.steps[k].passed_ok, "bytes did not pass through unchanged">>,
           <<\A k \in 1..Len(bufs) : (rec.steps[k].n = 0 /\ bufs[k] > 0) => got[k] = total, "reader stopped before the end of the stream">>,
           <<rec.small => \A k \in 1..Len(bufs) : rec.steps[k].passed = SubSeq(rec.stream, 1, got[k]), "bytes did not pass through unchanged (small stream)">>,
